@@ -1,10 +1,10 @@
 (* C32 correspondence: one case = one JSON text run through the real parse_json, JsonValue::to_jsonb_bytes,
-   JsonbBuilder::build, a full read-back through JsonbView and a set of lookups through
-   OwnedValue::{jsonb_get, jsonb_array_get, jsonb_get_path}.
+   JsonbBuilder::build and JsonbBuilder::try_build, a full read-back through JsonbView and a set of
+   lookups through OwnedValue::{jsonb_get, jsonb_array_get, jsonb_get_path}.
      model_agrees : Model/JsonText.v + Model/Jsonb.v reproduce everything the implementation did;
      spec_ok      : what the implementation did satisfies the property itself, judged against the
                     document (an oracle that does not use the model of the code);
-     known_class  : the recorded defects (narrow, decidable on the case).
+     known_class  : 0 everywhere (both recorded findings are fixed: 00ee7a4, 456f370).
    Definitions only; evaluated by vm_compute. *)
 From Coq Require Import ZArith List Bool.
 From Coq Require Export Uint63.
@@ -47,6 +47,9 @@ Definition B (n : Z) (l : list int) : list Z := unpack n l.
 Definition Q (hi lo : int) : Z := Uint63.to_Z hi * 2 ^ 32 + Uint63.to_Z lo.
 Definition N (hi lo : int) : json := JNum (Q hi lo).
 
+(* JsonbBuilder::try_build: Ok (and whether the bytes are those of to_jsonb_bytes), refused, panicked *)
+Inductive tbres := TBOk (same_as_bytes : bool) | TBErr | TBPanic.
+
 Inductive case :=
 | Doc (text : list Z)
       (oracle : list (list Z * option Z))   (* str::parse::<f64> on every candidate number token of the text *)
@@ -54,6 +57,7 @@ Inductive case :=
       (p : pres)                            (* parse_json *)
       (bytes : list Z)                      (* JsonValue::to_jsonb_bytes *)
       (builder_same : bool)                 (* JsonbBuilder::build gives the same bytes *)
+      (tb : tbres)                          (* JsonbBuilder::try_build (what the SQL conversion path stores) *)
       (back : rres)                         (* the document read back through JsonbView *)
       (probes : list probe).
 
@@ -188,11 +192,16 @@ Definition pres_eqb (a b : pres) : bool :=
 
 Definition model_agrees (c : case) : bool :=
   match c with
-  | Doc text oracle want p bytes same back probes =>
+  | Doc text oracle want p bytes same tb back probes =>
       pres_eqb (model_parse text oracle) p &&
       match p with
       | POk v _ =>
           zlist_eqb (encode_value v) bytes && same &&
+          match try_build v, tb with
+          | Ok b, TBOk sb => Bool.eqb (zlist_eqb b bytes) sb
+          | Err, TBErr => true
+          | _, _ => false
+          end &&
           rres_eqb (rres_of_tree (tree_of_view model_fuel bytes)) back &&
           forallb (probe_agrees bytes) probes
       | _ => true
@@ -251,9 +260,22 @@ Definition probe_ok (v : json) (pr : probe) : bool :=
   | PPathEq keys r => result_ok v (map SKey keys) r && same_result r r
   end.
 
+(* the limits of the JSONB format: a string or key below the root of 2^16 bytes or more (u16 length
+   field), a root string of 2^28 bytes or more (28-bit header count), or -- unless the document is a single
+   string -- an encoding of more than 2^24 bytes (24-bit offsets; judged on the bytes the raw encoder produced) *)
+Fixpoint has_long_nested (nested : bool) (v : json) : bool :=
+  match v with
+  | JStr s => if nested then 2 ^ 16 <=? blen s else 2 ^ 28 <=? blen s
+  | JArr els => existsb (has_long_nested true) els
+  | JObj kvs => existsb (fun kv => match kv with (k, e) => (2 ^ 16 <=? blen k) || has_long_nested true e end) kvs
+  | _ => false
+  end.
+Definition beyond_format (v : json) (bytes : list Z) : bool :=
+  has_long_nested false v || (negb (is_str v) && (2 ^ 24 <? blen bytes)).
+
 Definition spec_ok (c : case) : bool :=
   match c with
-  | Doc text oracle want p bytes same back probes =>
+  | Doc text oracle want p bytes same tb back probes =>
       (* a document that is JSON by construction parses to the value it was printed from *)
       match want with
       | WNone => true
@@ -265,59 +287,25 @@ Definition spec_ok (c : case) : bool :=
           | _ => false
           end
       end &&
-      (* whatever was parsed reads back as an equal value and every lookup finds what the document holds *)
+      (* what the checked entry point (try_build, the SQL path) accepts reads back as an equal value and every
+         lookup finds what the document holds; it may refuse only what the format cannot represent.
+         Nothing is demanded of the bytes of the raw `build` / to_jsonb_bytes for a refused document. *)
       match p with
       | POk v _ =>
-          same &&
-          match back with RVal t => json_eqv t v | _ => false end &&
-          forallb (probe_ok v) probes
+          match tb with
+          | TBOk sb =>
+              sb && same &&
+              match back with RVal t => json_eqv t v | _ => false end &&
+              forallb (probe_ok v) probes
+          | TBErr => beyond_format v bytes
+          | TBPanic => false
+          end
       | _ => true
       end
   end.
 
-(* ------------------------------------------------------------------ recorded findings *)
-(* class 1: a string or key of 65536 bytes or more below the root (its length is stored as `len as u16`) *)
-Fixpoint has_long_nested (nested : bool) (v : json) : bool :=
-  match v with
-  | JStr s => nested && (2 ^ 16 <=? blen s)
-  | JArr els => existsb (has_long_nested true) els
-  | JObj kvs => existsb (fun kv => match kv with (k, e) => (2 ^ 16 <=? blen k) || has_long_nested true e end) kvs
-  | _ => false
-  end.
-
-(* class 2: the text contains an escaped UTF-16 surrogate pair \uD800-\uDBFF \uDC00-\uDFFF (every
-   backslash escapes the next byte, as in the tokenizer) *)
-Definition hex4_in (lo hi : Z) (a b c d : Z) : bool :=
-  match hex_val a, hex_val b, hex_val c, hex_val d with
-  | Some x, Some y, Some z, Some w => let cp := x * 4096 + y * 256 + z * 16 + w in (lo <=? cp) && (cp <=? hi)
-  | _, _, _, _ => false
-  end.
-Fixpoint has_pair_escape (l : list Z) : bool :=
-  match l with
-  | [] => false
-  | c :: r =>
-      if c =? 92 then
-        match r with
-        | [] => false
-        | e :: r1 =>
-            (match r with
-             | 117 :: a :: b :: c' :: d :: 92 :: 117 :: a2 :: b2 :: c2 :: d2 :: _ =>
-                 hex4_in 55296 56319 a b c' d && hex4_in 56320 57343 a2 b2 c2 d2
-             | _ => false
-             end) || has_pair_escape r1
-        end
-      else has_pair_escape r
-  end.
-
-Definition known_class (c : case) : Z :=
-  match c with
-  | Doc text oracle want p bytes same back probes =>
-      match p with
-      | POk v _ => if has_long_nested false v then 1 else 0
-      | PErr => match want with WNone => 0 | _ => if has_pair_escape text then 2 else 0 end
-      | PPanic => 0
-      end
-  end.
+(* ------------------------------------------------------------------ recorded findings: none open *)
+Definition known_class (c : case) : Z := 0.
 
 Fixpoint failures_from (i : Z) (cs : list case) : list (Z * bool * bool * Z) :=
   match cs with
